@@ -71,22 +71,24 @@ type Script struct {
 }
 
 type Res struct {
-	C       string           `json:"c"`
-	I       int              `json:"i"`
-	Phase   string           `json:"phase"`
-	Op      *Op              `json:"op,omitempty"`
-	OK      bool             `json:"ok,omitempty"`
-	Err     string           `json:"err,omitempty"`
-	Panic   string           `json:"panic,omitempty"`
-	Missing bool             `json:"missing,omitempty"`
-	Val     *rec.D           `json:"val,omitempty"`
-	Static  string           `json:"static,omitempty"`
-	SPkg    string           `json:"spkg,omitempty"` // package path of the getter's result type
-	Events  []rec.DE         `json:"events,omitempty"`
-	Counts  map[string]int64 `json:"counts,omitempty"`
-	API     *API             `json:"api,omitempty"`
-	Bool    *bool            `json:"bool,omitempty"`
-	Stress  *StressRes       `json:"stress,omitempty"`
+	C          string           `json:"c"`
+	I          int              `json:"i"`
+	Phase      string           `json:"phase"`
+	Op         *Op              `json:"op,omitempty"`
+	OK         bool             `json:"ok,omitempty"`
+	Err        string           `json:"err,omitempty"`
+	Panic      string           `json:"panic,omitempty"`
+	Missing    bool             `json:"missing,omitempty"`
+	Val        *rec.D           `json:"val,omitempty"`
+	Static     string           `json:"static,omitempty"`
+	SPkg       string           `json:"spkg,omitempty"` // package path of the getter's result type
+	Events     []rec.DE         `json:"events,omitempty"`
+	Counts     map[string]int64 `json:"counts,omitempty"`
+	API        *API             `json:"api,omitempty"`
+	Bool       *bool            `json:"bool,omitempty"`
+	Stress     *StressRes       `json:"stress,omitempty"`
+	raw        interface{}      // the value an operation returned (stress mode reads identities from it)
+	noDescribe bool
 }
 
 type API struct {
@@ -183,6 +185,10 @@ func (r *runner) exec(op Op, res *Res) {
 			return
 		}
 		res.OK = true
+		res.raw = v
+		if res.noDescribe {
+			return
+		}
 		d := rec.Describe(v)
 		res.Val = &d
 	}
@@ -193,6 +199,11 @@ func (r *runner) exec(op Op, res *Res) {
 	switch op.Op {
 	case "new":
 		rec.Reset()
+		for _, cancel := range r.cncl {
+			cancel()
+		}
+		r.cncl = nil
+		r.ctxs = map[int]context.Context{} // contexts belong to one container
 		ctor, ok := registry[r.name]
 		if !ok {
 			res.Err = "not registered"
